@@ -1204,3 +1204,45 @@ def h_take_while(vf, node, fn, args):
     out = Seq(s.n, s.elem, 'take_while(%s)' % s.desc, src=s.src)
     out.stop = lambda elem: tt(vf, vf.apply_closure(c, [elem]))
     return out
+
+
+@reg('SHAPE', 'ndarray::aview1')
+def h_aview1(vf, node, fn, args):
+    """aview1(slice) is ArrayView1::from_shape(slice.len(), slice) (which cannot fail)"""
+    x = tt(vf, vf.deref(args[0]))
+    return T.app('from_shape', T.app('len', x), x)
+
+
+@reg('SHAPE', 'ndarray::ArrayBase::reversed_axes')
+def h_reversed_axes(vf, node, fn, args):
+    return T.app('transpose', tt(vf, vf.deref(args[0])))        # same as .t() (followed by to_owned, an alias)
+
+
+@reg('SHAPE', 'ndarray::Slice::from')
+def h_slice_from(vf, node, fn, args):
+    return tt(vf, vf.deref(args[0]))            # Slice::from(range) carries the range
+
+
+@reg('OPTION', 'std::result::Result::and_then', 'std::option::Option::and_then', 'std::result::Result::map')
+def h_result_chain(vf, node, fn, args):
+    """Ok / Some are transparent in the term algebra (the tag lives in is:* conditions): r.map(f) and r.and_then(f) apply f to the
+    success value; the error path is whatever r's error path is"""
+    key = callee_key(fn)
+    o = vf.deref(args[0])
+    ot = tt(vf, o)
+    if T.is_app(ot, 'opt'):
+        if key.endswith('::and_then'):
+            f = vf.deref(args[1])
+            if isinstance(f, Clos):
+                vf.pc.append(ot[2][0])
+                try:
+                    r = tt(vf, vf.apply_closure(f, [ot[2][1]]))
+                finally:
+                    vf.pc.pop()
+                return T.app('opt', T.land(ot[2][0], r[2][0]), r[2][1]) if T.is_app(r, 'opt') else T.app('opt', ot[2][0], r)
+        return vf.default_call(key, args, node, fn)
+    f = vf.deref(args[1])
+    if isinstance(f, Clos):
+        return vf.apply_closure(f, [o])
+    r = vf.apply_fn_item(tt(vf, f), [o], node)
+    return r if r is not None else vf.default_call(key, args, node, fn)
